@@ -7,6 +7,17 @@ import (
 
 // TMerc is a transverse Mercator projection.
 func TMerc(this *SR) (forward, inverse Transformer, err error) {
+	// Parameters that are left out of the definition default to zero, as in
+	// PROJ.4 (and as Merc and LCC do for the false origin).
+	if math.IsNaN(this.X0) {
+		this.X0 = 0
+	}
+	if math.IsNaN(this.Y0) {
+		this.Y0 = 0
+	}
+	if math.IsNaN(this.Lat0) {
+		this.Lat0 = 0
+	}
 
 	e0 := e0fn(this.Es)
 	e1 := e1fn(this.Es)
